@@ -134,6 +134,11 @@ fn conv_oracle(c: &Conv) -> Verdict {
             ensure!(b.time_scale == SCALES[c.a] && count(b.duration) == c.c && canonical(b.duration), "from_*_nanoseconds({}) for {} has count {} in {:?}", n, SCALE_NAMES[c.a], count(b.duration), b.time_scale);
         }
     }
+    if c.a == S_TAI {
+        let (cc, nn) = mk(c.c).to_parts();
+        let b = lib!(Epoch::from_tai_parts(cc, nn));
+        ensure!(b.time_scale == SCALES[S_TAI] && count(b.duration) == c.c && canonical(b.duration), "from_tai_parts({}, {}) has count {} in {:?}", cc, nn, count(b.duration), b.time_scale);
+    }
     if c.b == S_TAI {
         let j = lib!(e.to_duration_since_j1900());
         ensure!(count(j) == want, "to_duration_since_j1900 {} want {}", count(j), want);
